@@ -5,9 +5,10 @@ package raft
 
 import (
 	"bytes"
+	"encoding/json"
 	"fmt"
+	"io/ioutil"
 	"sort"
-	"strconv"
 	"time"
 )
 
@@ -110,6 +111,12 @@ func (c *simCluster) doStep(s simStep) (ev map[string]interface{}) {
 		ev = c.stepRestart(s.N)
 	case "disconnected":
 		ev = c.stepDisconnected(s.N, s.Peer)
+	case "snapGAsk":
+		ev = c.stepSnapG(s.N, "ask")
+	case "snapGStore":
+		ev = c.stepSnapG(s.N, "store")
+	case "snapTaken":
+		ev = c.stepSnapTaken(s.N)
 	case "task":
 		ev = c.stepTask(s)
 	default:
@@ -347,7 +354,7 @@ func (c *simCluster) stepClient(s simStep) map[string]interface{} {
 		var t FSMTask
 		switch op.Op {
 		case "update":
-			t = UpdateFSM([]byte(strconv.Itoa(op.ID)))
+			t = UpdateFSM(makeCmd(op.ID))
 		case "read":
 			t = ReadFSM("all")
 		case "dirty":
@@ -484,6 +491,7 @@ func (c *simCluster) stepTask(s simStep) map[string]interface{} {
 			thr = uint64(v)
 		}
 		t = TakeSnapshot(thr)
+		ev["threshold"] = thr
 	case "transfer":
 		target := uint64(0)
 		if v, ok := s.Arg["target"].(float64); ok {
@@ -499,13 +507,112 @@ func (c *simCluster) stepTask(s simStep) map[string]interface{} {
 	st := &simTask{id: 1000 + len(c.tasks) + 1, kind: s.Task, node: s.N, inc: n.inc, t: t}
 	c.tasks = append(c.tasks, st)
 	ev["task"] = st.id
+	wasIdle := n.r.snapTakenCh == nil
+	fsmBefore := len(n.r.fsm.ch)
 	n.event(func() {
 		n.r.executeTask(t)
 		if n.r.state == Follower && n.f.electionAborted {
 			n.f.resetTimer()
 		}
 	})
+	if s.Task == "takeSnapshot" && wasIdle && n.up && n.r.snapTakenCh != nil {
+		n.snapPhase = "start"
+		if len(n.r.fsm.ch) > fsmBefore {
+			n.snapPhase = "asked" // onTakeSnapshot queued the FSM request itself
+		}
+	}
 	return ev
+}
+
+// snapshot goroutine ---------------------------------------------------------------
+
+func (n *simNode) waitGate(point string) bool {
+	deadline := time.Now().Add(simWait)
+	for n.gate.parkedAt() != point {
+		if len(n.r.snapTakenCh) > 0 {
+			return false
+		}
+		if at := n.gate.parkedAt(); at == "snapG.ask" && point != "snapG.ask" {
+			n.gate.open() // the request is already queued (raft goroutine asked the FSM itself)
+		}
+		if time.Now().After(deadline) {
+			panic(harnessStuck("snapshot goroutine did not reach " + point))
+		}
+		time.Sleep(20 * time.Microsecond)
+	}
+	return true
+}
+
+// after the FSM answered the snapshot request: the goroutine either parks at snapG.store or reports an error
+func (n *simNode) snapAfterFsm() {
+	if n.snapPhase != "asked" {
+		return
+	}
+	if n.waitGate("snapG.store") {
+		n.snapPhase = "got"
+	} else {
+		n.snapPhase = "err"
+	}
+}
+
+func (c *simCluster) stepSnapG(id uint64, what string) map[string]interface{} {
+	n := c.nodes[id]
+	if n == nil || !n.up {
+		return skipped("node down")
+	}
+	switch what {
+	case "ask":
+		if n.snapPhase != "start" {
+			return skipped("no snapshot goroutine at start")
+		}
+		n.waitGate("snapG.ask")
+		before := len(n.r.fsm.ch)
+		n.gate.open()
+		deadline := time.Now().Add(simWait)
+		for len(n.r.fsm.ch) <= before {
+			if time.Now().After(deadline) {
+				panic(harnessStuck("snapshot goroutine did not ask the FSM"))
+			}
+			time.Sleep(20 * time.Microsecond)
+		}
+		n.snapPhase = "asked"
+		return map[string]interface{}{"kind": "snapGAsk", "n": id}
+	case "store":
+		if n.snapPhase == "err" {
+			n.snapPhase = "stored"
+			return map[string]interface{}{"kind": "snapGStore", "n": id, "err": true}
+		}
+		if n.snapPhase != "got" {
+			return skipped("snapshot goroutine not ready to store")
+		}
+		n.gate.open()
+		deadline := time.Now().Add(simWait)
+		for len(n.r.snapTakenCh) == 0 {
+			if time.Now().After(deadline) {
+				panic(harnessStuck("snapshot goroutine did not finish"))
+			}
+			time.Sleep(20 * time.Microsecond)
+		}
+		n.snapPhase = "stored"
+		return map[string]interface{}{"kind": "snapGStore", "n": id, "index": n.r.snaps.index}
+	}
+	return skipped("bad snapG step")
+}
+
+func (c *simCluster) stepSnapTaken(id uint64) map[string]interface{} {
+	n := c.nodes[id]
+	if n == nil || !n.up {
+		return skipped("node down")
+	}
+	if n.snapPhase != "stored" || n.r.snapTakenCh == nil || len(n.r.snapTakenCh) == 0 {
+		return skipped("no finished snapshot")
+	}
+	n.event(func() {
+		t := <-n.r.snapTakenCh
+		n.r.onSnapshotTaken(t)
+	})
+	n.snapPhase = "idle"
+	return map[string]interface{}{"kind": "snapTaken", "n": id}
 }
 
 // completed tasks since the last record
@@ -600,6 +707,7 @@ type pSnap struct {
 	Index uint64 `json:"index"`
 	Term  uint64 `json:"term"`
 	Cfg   pCfg   `json:"cfg"`
+	Cmds  []int  `json:"cmds"`
 }
 
 type pFsm struct {
@@ -680,6 +788,8 @@ type pNodeState struct {
 	Fsm         pFsm     `json:"fsm"`
 	Ldr         pLdr     `json:"ldr"`
 	Disk        pDisk    `json:"disk"`
+	Bnds        []uint64 `json:"bnds"`
+	SnapG       string   `json:"snapG"`
 	Died        string   `json:"died"`
 	Stopped     string   `json:"stopped"`
 }
@@ -729,7 +839,7 @@ func (c *simCluster) project(n *simNode) pNodeState {
 		}
 		d := readDisk(n.dir)
 		return pNodeState{ID: n.id, Inc: n.inc, State: "D", Log: []pEntry{}, Fsm: pFsm{Cmds: []int{}}, Died: n.died, Stopped: n.stopped,
-			Disk: d, Term: d.Term, Vote: d.Vote, Snap: pSnap{Cfg: pCfg{Nodes: []pNode{}}}, CfgC: pCfg{Nodes: []pNode{}}, CfgL: pCfg{Nodes: []pNode{}},
+			Disk: d, Term: d.Term, Vote: d.Vote, Snap: pSnap{Cfg: pCfg{Nodes: []pNode{}}, Cmds: []int{}}, Bnds: []uint64{}, SnapG: "idle", CfgC: pCfg{Nodes: []pNode{}}, CfgL: pCfg{Nodes: []pNode{}},
 			Ldr: pLdr{NeQ: []pNe{}, Repls: []pRepl{}}}
 	}
 	r := n.r
@@ -748,11 +858,7 @@ func (c *simCluster) project(n *simNode) pNodeState {
 		pe := pEntry{I: e.index, T: e.term, Y: typName(e.typ), C: []pNode{}}
 		switch e.typ {
 		case entryUpdate:
-			v, err := strconv.Atoi(string(e.data))
-			if err != nil {
-				v = -1
-			}
-			pe.V = v
+			pe.V = parseCmd(e.data)
 		case entryConfig:
 			var cfg Config
 			if err := cfg.decode(e); err == nil {
@@ -763,10 +869,15 @@ func (c *simCluster) project(n *simNode) pNodeState {
 	}
 	meta, err := r.snaps.meta()
 	if err == nil {
-		p.Snap = pSnap{Index: r.snaps.index, Term: r.snaps.term, Cfg: projCfg(meta.config)}
+		p.Snap = pSnap{Index: r.snaps.index, Term: r.snaps.term, Cfg: projCfg(meta.config), Cmds: readSnapCmds(r.snaps.dir, r.snaps.index)}
 	} else {
-		p.Snap = pSnap{Index: r.snaps.index, Term: r.snaps.term, Cfg: pCfg{Nodes: []pNode{}}}
+		p.Snap = pSnap{Index: r.snaps.index, Term: r.snaps.term, Cfg: pCfg{Nodes: []pNode{}}, Cmds: []int{}}
 	}
+	p.Bnds = []uint64{}
+	for _, sg := range r.log.VerifSegments() {
+		p.Bnds = append(p.Bnds, uint64(sg[0]))
+	}
+	p.SnapG = n.snapPhase
 	p.CfgC, p.CfgL = projCfg(r.configs.Committed), projCfg(r.configs.Latest)
 	p.Fsm = pFsm{Index: r.fsm.index, Term: r.fsm.term, Cmds: append([]int{}, n.fsm.cmds...), Q: len(r.fsm.ch)}
 	p.Ldr = pLdr{NeQ: []pNe{}, Repls: []pRepl{}}
@@ -814,6 +925,22 @@ func (c *simCluster) project(n *simNode) pNodeState {
 	p.Disk = readDisk(n.dir)
 	p.Died, p.Stopped = n.died, n.stopped
 	return p
+}
+
+func readSnapCmds(dir string, index uint64) []int {
+	cmds := []int{}
+	if index == 0 {
+		return cmds
+	}
+	b, err := ioutil.ReadFile(snapFile(dir, index))
+	if err != nil {
+		return cmds
+	}
+	_ = json.Unmarshal(b, &cmds)
+	if cmds == nil {
+		cmds = []int{}
+	}
+	return cmds
 }
 
 func readDisk(dir string) pDisk {
